@@ -13,6 +13,9 @@ Sites (recognised by class + method name and by the shape of their statements):
   _grid.py    TraveltimeGrid2D/3D.raytrace (stepsize default, max_step default, ray2d/ray3d call), .gradient
   _solver.py  Eikonal2D/3D.solve (kernel call, result objects)
   _fteik/...  parameter names of solve2d/solve3d/ray2d/ray3d (to bind the call arguments)
+  round 2:    BaseGrid2D/3D.__call__ and TraveltimeGrid2D/3D.__call__ (interp*/vinterp* wiring, parameter names from
+              _interp/*.py), TraveltimeGrid2D/3D.gradient (None guard, component order), the constructors
+              (TraveltimeGrid*, Eikonal* with the origin default, Grid*, BaseTraveltime), remaining BaseGrid members
 
 Arithmetic (operators, literals, association, int->float conversions) is TRANSLATED, whatever it is; the statement
 shape around it is CHECKED.  Anything unexpected at a site aborts with `file:line: reason`.
@@ -80,6 +83,28 @@ def C(node):
     """source text quoted inside a Coq comment: must not open/close comments or strings"""
     t = node if isinstance(node, str) else ast.unparse(node)
     return t.replace("(*", "( *").replace("*)", "* )").replace('"', "'")
+
+
+def nested_pair_list(rows):
+    return "[" + ";\n   ".join("[" + "; ".join(f"({coq_str(a)}, {coq_str(b)})" for a, b in r) + "]" for r in rows) + "]"
+
+
+class Subst(ast.NodeTransformer):
+    """replace loaded names by expressions"""
+
+    def __init__(self, mapping):
+        self.mapping = mapping
+
+    def visit_Name(self, node):
+        if isinstance(node.ctx, ast.Load) and node.id in self.mapping:
+            import copy
+            return copy.deepcopy(self.mapping[node.id])
+        return node
+
+
+def subst(node, mapping):
+    import copy
+    return ast.fix_missing_locations(Subst(mapping).visit(copy.deepcopy(node)))
 
 
 def coq_str(s):
@@ -374,6 +399,8 @@ class Gen:
         if set(seen) != set(want):
             s.err(init, "BaseGrid.__init__: a storage attribute is not initialised")
         self.dat("basegrid_init", "list (string * string)", pair_list([(k, seen[k]) for k in want]))
+        self.base_store = [(k, ast.parse(want[k], mode="eval").body) for k in want]
+        self.base_init_params = ["grid", "gridsize", "origin"]
         alias = {"grid": "self._grid", "gridsize": "self._gridsize", "origin": "self._origin",
                  "shape": "self._grid.shape"}
         for p, tgt in alias.items():
@@ -387,7 +414,7 @@ class Gen:
             if [U(b) for b in cc.bases] != ["BaseGrid"] or cc.keywords:
                 s.err(cc, f"{cn}: unexpected bases")
             for n in cc.body:
-                if isinstance(n, ast.FunctionDef) and n.name in alias:
+                if isinstance(n, ast.FunctionDef) and (n.name in alias or n.name in ("__init__", "__getitem__", "size", "ndim")):
                     s.err(n, f"{cn} overrides BaseGrid.{n.name}")
         self.dat("basegrid_props", "list (string * string)", pair_list(list(alias.items())))
 
@@ -609,6 +636,7 @@ class Gen:
             s.need_import("_base", 1, b)
         c = self.check_subclass(s, cname, [f"BaseGrid{nd}D", "BaseTraveltime"],
                                 {"zaxis", "xaxis", "yaxis", "shape", "gridsize", "origin", "grid", "_ndim",
+                                 "__getitem__", "size", "ndim", "resample", "smooth", "source",
                                  "__getattr__", "__getattribute__", "__setattr__"})
         fn = s.method(c, "raytrace")
         params = s.params(fn, ["points", "stepsize", "max_step", "honor_grid"], f"{cname}.raytrace")
@@ -748,25 +776,7 @@ class Gen:
         self.dat(f"raytrace_{tag}_binding", "list (string * string)", pair_list(list(zip(kparams, args_u))))
 
         # --- the gradient property the call reads
-        g = s.method(c, "gradient", prop=True)
-        gb = s.body(g)
-        ctor = f"Grid{nd}D"
-        sl = ", ".join([":"] * nd + ["i"])
-        ok = (len(gb) == 2 and isinstance(gb[0], ast.If) and same(gb[0].test, "self._gradient is None")
-              and not gb[0].orelse and len(gb[0].body) == 1 and isinstance(gb[0].body[0], ast.Raise)
-              and isinstance(gb[1], ast.Return) and gb[1].value is not None
-              and same(gb[1].value, f"[{ctor}(self._gradient[{sl}], self._gridsize, self._origin) for i in range({nd})]"))
-        if not ok:
-            s.err(g, f"{cname}.gradient: expected the list [{ctor}(self._gradient[{sl}], self._gridsize, self._origin)"
-                     f" for i in range({nd})]")
-        gc = s.cls(ctor)
-        self.check_subclass(s, ctor, [f"BaseGrid{nd}D"], {"grid", "gridsize", "origin", "shape", "zaxis", "xaxis", "yaxis"})
-        gi = s.method(gc, "__init__")
-        if not (len(s.body(gi)) == 1 and isinstance(s.body(gi)[0], ast.Expr)
-                and same(s.body(gi)[0].value, "super().__init__(*args, **kwargs)")):
-            s.err(gi, f"{ctor}.__init__: expected only `super().__init__(*args, **kwargs)`")
-        self.dat(f"raytrace_{tag}_gradient", "string * list string",
-                 f"({coq_str(ctor)}, {str_list([U(a) for a in gb[1].value.elt.args] + [U(gb[1].value.generators[0].iter)])})")
+        self.gradient_prop(s, c, nd)
 
     # ---------------------------------------------------------------- site 3: solve
     def solve(self, nd):
@@ -778,7 +788,8 @@ class Gen:
         s.need_import("_grid", 1, ctor)
         s.need_import("_base", 1, f"BaseGrid{nd}D")
         c = self.check_subclass(s, cname, [f"BaseGrid{nd}D"],
-                                {"zaxis", "xaxis", "yaxis", "shape", "gridsize", "origin", "grid", "_ndim",
+                                {"zaxis", "xaxis", "yaxis", "shape", "gridsize", "origin", "grid", "_ndim", "__call__",
+                                 "__getitem__", "size", "ndim", "resample", "smooth",
                                  "__getattr__", "__getattribute__", "__setattr__"})
         fn = s.method(c, "solve")
         params = s.params(fn, ["sources", "nsweep", "return_gradient"], f"{cname}.solve")
@@ -931,19 +942,293 @@ class Gen:
         self.dat(f"solve_{tag}_result_single", "list (string * string)", pair_list(single_f))
         self.dat(f"solve_{tag}_result_multi", "list (string * string)", pair_list(multi_f))
 
+    # ---------------------------------------------------------------- round 2: remaining BaseGrid / BaseTraveltime members
+    def base_other(self):
+        s = self.base
+        c = s.cls("BaseGrid")
+        rows = []
+        fn = s.method(c, "__getitem__")
+        s.params(fn, ["islice"], "BaseGrid.__getitem__")
+        b = s.body(fn)
+        if len(b) != 1 or not isinstance(b[0], ast.Return) or b[0].value is None or not same(b[0].value, "self._grid[islice]"):
+            s.err(fn, "BaseGrid.__getitem__: expected `return self._grid[islice]`")
+        rows.append(("__getitem__(islice)", U(b[0].value)))
+        for p, tgt in (("size", "self._grid.size"), ("ndim", "self._grid.ndim")):
+            fn = s.method(c, p, prop=True)
+            b = s.body(fn)
+            if len(b) != 1 or not isinstance(b[0], ast.Return) or b[0].value is None or not same(b[0].value, tgt):
+                s.err(fn, f"BaseGrid.{p}: expected `return {tgt}`")
+            rows.append((p, tgt))
+        members = sorted(n.name for n in c.body if isinstance(n, ast.FunctionDef))
+        if members != sorted(["__init__", "__getitem__", "grid", "gridsize", "origin", "shape", "size", "ndim"]):
+            s.err(c, f"BaseGrid: unexpected set of members {members}")
+        self.dat("basegrid_other", "list (string * string)", pair_list(rows))
+        # BaseTraveltime: storage of source / gradient / vzero
+        t = s.cls("BaseTraveltime")
+        if [U(b) for b in t.bases] != ["ABC"] or t.keywords:
+            s.err(t, "BaseTraveltime: unexpected bases")
+        init = s.method(t, "__init__")
+        a = init.args
+        tp = ["source", "gradient", "vzero"]
+        if [x.arg for x in a.args] != ["self"] + tp or a.vararg or a.kwonlyargs or a.posonlyargs or a.defaults or not a.kwarg:
+            s.err(init, "BaseTraveltime.__init__: parameters changed")
+        seen = {}
+        for st in s.body(init):
+            if isinstance(st, ast.Expr) and same(st.value, "super().__init__(**kwargs)"):
+                continue
+            if isinstance(st, ast.Assign) and len(st.targets) == 1 and isinstance(st.targets[0], ast.Attribute) \
+                    and is_name(st.targets[0].value, "self") and st.targets[0].attr in ("_source", "_gradient", "_vzero") \
+                    and st.targets[0].attr not in seen and is_name(st.value, *tp):
+                seen[st.targets[0].attr] = st.value
+                continue
+            s.err(st, f"BaseTraveltime.__init__: unexpected statement `{U(st)}`")
+        order = ["_source", "_gradient", "_vzero"]
+        if set(seen) != set(order):
+            s.err(init, "BaseTraveltime.__init__: a storage attribute is not initialised")
+        self.tt_store = [(k, seen[k]) for k in order]
+        self.tt_init_params = tp
+        self.dat("basetraveltime_init", "list (string * string)", pair_list([(k, U(seen[k])) for k in order]))
+        fn = s.method(t, "source", prop=True)
+        b = s.body(fn)
+        if len(b) != 1 or not isinstance(b[0], ast.Return) or b[0].value is None or not same(b[0].value, "self._source"):
+            s.err(fn, "BaseTraveltime.source: expected `return self._source`")
+        members = sorted(n.name for n in t.body if isinstance(n, ast.FunctionDef))
+        if members != ["__init__", "source"]:
+            s.err(t, f"BaseTraveltime: unexpected set of members {members}")
+        self.dat("basetraveltime_props", "list (string * string)", pair_list([("source", "self._source")]))
+
+    # ---------------------------------------------------------------- round 2, site 5: point evaluation (__call__)
+    def point_call(self, s, c, nd, prefix, kern, extra):
+        """`return kern(axes..., self._grid, np.asarray(points, float64), [source, vzero,] fill_value)`"""
+        tag = f"{nd}d"
+        s.need_np()
+        s.need_import("_interp", 1, kern)
+        fn = s.method(c, "__call__")
+        params = s.params(fn, ["points", "fill_value"], f"{c.name}.__call__")
+        self.dat(f"{prefix}_{tag}_params", "list string", str_list(params))
+        b = s.body(fn)
+        if not (len(b) == 1 and isinstance(b[0], ast.Return) and isinstance(b[0].value, ast.Call)
+                and is_name(b[0].value.func, kern)):
+            s.err(fn, f"{c.name}.__call__: expected a single `return {kern}(...)`")
+        call = b[0].value
+        if call.keywords:
+            s.err(call, f"{c.name}.__call__: keyword arguments in the {kern} call")
+        axes_ok = ["zaxis", "xaxis", "yaxis"][:nd]
+        for a in call.args:
+            ok = (is_self_attr(a, *axes_ok) or is_self_attr(a, "_grid", *extra) or is_name(a, "fill_value")
+                  or same(a, "np.asarray(points, dtype=np.float64)"))
+            if not ok:
+                s.err(a, f"{c.name}.__call__: unexpected argument `{U(a)}` in the {kern} call")
+        ks, kfn = resolve_def(self.pkg, "", "_interp", kern)
+        kparams, kdfl = plain_params(ks, kfn)
+        args_u = [U(a) for a in call.args]
+        if len(args_u) > len(kparams):
+            s.err(call, f"{c.name}.__call__: {len(args_u)} arguments for {kern}{tuple(kparams)}")
+        for p in kparams[len(args_u):]:
+            if p not in dict(kdfl):
+                s.err(call, f"{c.name}.__call__: no argument for parameter `{p}` of {kern}")
+        self.dat(f"{prefix}_{tag}_call", "string * list string", f"({coq_str(kern)}, {str_list(args_u)})")
+        self.dat(f"{kern}_params", "list string", str_list(kparams))
+        self.dat(f"{kern}_defaults", "list (string * string)", pair_list(kdfl))
+        self.dat(f"{prefix}_{tag}_binding", "list (string * string)", pair_list(list(zip(kparams, args_u))))
+
+    # ---------------------------------------------------------------- round 2, site 6: the gradient property
+    def gradient_prop(self, s, c, nd):
+        tag = f"{nd}d"
+        cname = c.name
+        g = s.method(c, "gradient", prop=True)
+        if [x.arg for x in g.args.args] != ["self"]:
+            s.err(g, f"{cname}.gradient: parameters changed")
+        gb = s.body(g)
+        if len(gb) != 2:
+            s.err(g, f"{cname}.gradient: expected two statements (None guard, list of grids)")
+        g0, g1 = gb
+        ok = (isinstance(g0, ast.If) and same(g0.test, "self._gradient is None") and not g0.orelse
+              and len(g0.body) == 1 and isinstance(g0.body[0], ast.Raise) and g0.body[0].cause is None
+              and isinstance(g0.body[0].exc, ast.Call) and isinstance(g0.body[0].exc.func, ast.Name)
+              and len(g0.body[0].exc.args) == 1 and not g0.body[0].exc.keywords
+              and isinstance(g0.body[0].exc.args[0], ast.Constant) and isinstance(g0.body[0].exc.args[0].value, str))
+        if not ok:
+            s.err(g0, f"{cname}.gradient: expected `if self._gradient is None: raise <Exception>(\"...\")`")
+        exc = g0.body[0].exc.func.id
+        lc = g1.value if isinstance(g1, ast.Return) else None
+        if not (isinstance(lc, ast.ListComp) and len(lc.generators) == 1 and not lc.generators[0].ifs
+                and not lc.generators[0].is_async and isinstance(lc.generators[0].target, ast.Name)):
+            s.err(g1, f"{cname}.gradient: expected `return [<Grid>(...) for <k> in <indices>]`")
+        gen = lc.generators[0]
+        kv = gen.target.id
+        it = gen.iter
+        if isinstance(it, ast.Call) and is_name(it.func, "range") and len(it.args) == 1 and not it.keywords \
+                and int_const(it.args[0]) is not None and int_const(it.args[0]) >= 0:
+            ks = list(range(int_const(it.args[0])))
+        elif isinstance(it, (ast.Tuple, ast.List)) and all(int_const(x) is not None and int_const(x) >= 0 for x in it.elts):
+            ks = [int_const(x) for x in it.elts]
+        else:
+            s.err(it, f"{cname}.gradient: the component index must range over range(<n>) or a literal tuple, not `{U(it)}`")
+        elt = lc.elt
+        if not (isinstance(elt, ast.Call) and is_name(elt.func, "Grid2D", "Grid3D") and not elt.keywords
+                and len(elt.args) == len(self.base_init_params) and not any(isinstance(a, ast.Starred) for a in elt.args)):
+            s.err(elt, f"{cname}.gradient: expected Grid{nd}D(<component>, <gridsize>, <origin>)")
+        ctor = elt.func.id
+        ncomp = 0
+        axis = None
+        for a in elt.args:
+            if is_self_attr(a, "_gridsize", "_origin"):
+                continue
+            if isinstance(a, ast.Subscript) and is_self_attr(a.value, "_gradient") and isinstance(a.slice, ast.Tuple):
+                pos = [i for i, x in enumerate(a.slice.elts) if is_name(x, kv)]
+                rest_ok = all(is_name(x, kv) or (isinstance(x, ast.Slice) and x.lower is None and x.upper is None
+                                                 and x.step is None) for x in a.slice.elts)
+                if len(pos) == 1 and rest_ok:
+                    ncomp += 1
+                    axis = pos[0]
+                    continue
+            s.err(a, f"{cname}.gradient: unexpected argument `{U(a)}` (expected self._gradient[:, ..., {kv}], "
+                     f"self._gridsize or self._origin)")
+        if ncomp != 1:
+            s.err(elt, f"{cname}.gradient: exactly one argument must be a component of self._gradient")
+        # Grid{nd}D.__init__ hands everything to BaseGrid.__init__
+        for gnd in (2, 3):
+            gname = f"Grid{gnd}D"
+            gc = self.check_subclass(s, gname, [f"BaseGrid{gnd}D"],
+                                     {"grid", "gridsize", "origin", "shape", "zaxis", "xaxis", "yaxis", "_ndim", "__call__",
+                                      "__getitem__", "size", "ndim", "resample", "smooth",
+                                      "__getattr__", "__getattribute__", "__setattr__"})
+            gi = s.method(gc, "__init__")
+            ga = gi.args
+            if [x.arg for x in ga.args] != ["self"] or not ga.vararg or not ga.kwarg or ga.kwonlyargs or ga.posonlyargs \
+                    or ga.vararg.arg != "args" or ga.kwarg.arg != "kwargs":
+                s.err(gi, f"{gname}.__init__: expected (self, *args, **kwargs)")
+            if not (len(s.body(gi)) == 1 and isinstance(s.body(gi)[0], ast.Expr)
+                    and same(s.body(gi)[0].value, "super().__init__(*args, **kwargs)")):
+                s.err(gi, f"{gname}.__init__: expected only `super().__init__(*args, **kwargs)`")
+            self.dat(f"grid_{gnd}d_init", "string * string",
+                     f"({coq_str('(self, *args, **kwargs)')}, {coq_str(U(s.body(gi)[0].value))})")
+        # round-1 datum, kept as it was
+        self.dat(f"raytrace_{tag}_gradient", "string * list string",
+                 f"({coq_str(ctor)}, {str_list([U(a) for a in elt.args] + [U(it)])})")
+        self.dat(f"gradient_{tag}_guard", "string * string", f"({coq_str(U(g0.test))}, {coq_str(exc)})")
+        self.dat(f"gradient_{tag}_ctor", "string", coq_str(ctor))
+        self.dat(f"gradient_{tag}_index", "list Z", "[" + "; ".join(str(k) for k in ks) + "]")
+        self.dat(f"gradient_{tag}_axis", "Z * Z", f"({axis}, {len([a for a in elt.args if isinstance(a, ast.Subscript)][0].slice.elts)})")
+        rows = []
+        for k in ks:
+            kc = ast.Constant(value=k)
+            rows.append([(p, U(subst(a, {kv: kc}))) for p, a in zip(self.base_init_params, elt.args)])
+        self.dat(f"gradient_{tag}_items", "list (list (string * string))", nested_pair_list(rows))
+
+    # ---------------------------------------------------------------- round 2, site 7: constructors
+    def super_keywords(self, s, fn, what, allowed_params, value_ok):
+        b = s.body(fn)
+        if not (len(b) == 1 and isinstance(b[0], ast.Expr) and isinstance(b[0].value, ast.Call)
+                and same(b[0].value.func, "super().__init__") and not b[0].value.args):
+            s.err(fn, f"{what}: expected only `super().__init__(<keyword arguments>)`")
+        got = {}
+        for kw in b[0].value.keywords:
+            if kw.arg is None or kw.arg in got or kw.arg not in allowed_params:
+                s.err(b[0], f"{what}: unexpected keyword `{kw.arg}` in super().__init__")
+            if not value_ok(kw.value):
+                s.err(kw.value, f"{what}: unexpected value `{U(kw.value)}` for {kw.arg}=")
+            got[kw.arg] = kw.value
+        if set(got) != set(allowed_params):
+            s.err(b[0], f"{what}: super().__init__ needs exactly the keywords {allowed_params}")
+        return got
+
+    def tt_init(self, nd):
+        s = self.grid
+        tag = f"{nd}d"
+        cname = f"TraveltimeGrid{nd}D"
+        c = s.cls(cname)
+        fn = s.method(c, "__init__")
+        names = ["grid", "gridsize", "origin", "source", "gradient", "vzero"]
+        params = s.params(fn, names, f"{cname}.__init__")
+        self.dat(f"ttinit_{tag}_params", "list string", str_list(params))
+
+        def conv(v):
+            return (isinstance(v, ast.Call) and is_np(v.func, "asarray") and len(v.args) == 1 and is_name(v.args[0], *names)
+                    and len(v.keywords) == 1 and v.keywords[0].arg == "dtype" and same(v.keywords[0].value, "np.float64"))
+
+        def value_ok(v):
+            if is_name(v, *names) or conv(v):
+                return True
+            return (isinstance(v, ast.IfExp) and isinstance(v.test, ast.Compare) and len(v.test.ops) == 1
+                    and isinstance(v.test.ops[0], ast.IsNot) and is_name(v.test.left, *names)
+                    and isinstance(v.test.comparators[0], ast.Constant) and v.test.comparators[0].value is None
+                    and conv(v.body) and v.body.args[0].id == v.test.left.id
+                    and isinstance(v.orelse, ast.Constant) and v.orelse.value is None)
+
+        allp = self.base_init_params + self.tt_init_params
+        got = self.super_keywords(s, fn, f"{cname}.__init__", allp, value_ok)
+        self.dat(f"ttinit_{tag}_super", "list (string * string)", pair_list([(p, U(got[p])) for p in allp]))
+        stored = [(k, U(subst(v, got))) for k, v in self.base_store + self.tt_store]
+        self.dat(f"ttinit_{tag}_stored", "list (string * string)", pair_list(stored))
+
+    def eikonal_init(self, nd):
+        s = self.solver
+        tag = f"{nd}d"
+        cname = f"Eikonal{nd}D"
+        c = s.cls(cname)
+        fn = s.method(c, "__init__")
+        names = ["grid", "gridsize", "origin"]
+        params = s.params(fn, names, f"{cname}.__init__")
+        self.dat(f"eikonal_{tag}_init_params", "list string", str_list(params))
+
+        def dflt(v):
+            return (isinstance(v, ast.IfExp) and isinstance(v.test, ast.Compare) and len(v.test.ops) == 1
+                    and isinstance(v.test.ops[0], ast.IsNot) and is_name(v.test.left, "origin")
+                    and isinstance(v.test.comparators[0], ast.Constant) and v.test.comparators[0].value is None
+                    and is_name(v.body, "origin")
+                    and isinstance(v.orelse, ast.Call) and is_np(v.orelse.func, "zeros") and len(v.orelse.args) == 1
+                    and int_const(v.orelse.args[0]) is not None and int_const(v.orelse.args[0]) >= 0
+                    and len(v.orelse.keywords) == 1 and v.orelse.keywords[0].arg == "dtype"
+                    and same(v.orelse.keywords[0].value, "np.float64"))
+
+        got = self.super_keywords(s, fn, f"{cname}.__init__", self.base_init_params,
+                                  lambda v: is_name(v, "grid", "gridsize") or dflt(v))
+        if not dflt(got["origin"]):
+            s.err(got["origin"], f"{cname}.__init__: expected origin=origin if origin is not None else np.zeros(<n>, dtype=np.float64)")
+        for p in ("grid", "gridsize"):
+            if not is_name(got[p], "grid", "gridsize"):
+                s.err(got[p], f"{cname}.__init__: the origin default may only be applied to the origin")
+        n = int_const(got["origin"].orelse.args[0])
+        self.d(f"eikonal_origin_{tag}",
+               f"(* {s.rel}:{got['origin'].lineno}  {cname}.__init__:  origin={C(got['origin'])} *)\n"
+               f"Definition eikonal_origin_{tag} (origin : option (list T)) : list T :=\n"
+               f"match origin with Some origin' => origin' | None => np_zeros {n} end.")
+        self.dat(f"eikonal_{tag}_init_super", "list (string * string)",
+                 pair_list([(p, U(got[p])) for p in self.base_init_params]))
+        self.dat(f"eikonal_{tag}_init_stored", "list (string * string)",
+                 pair_list([(k, U(subst(v, got))) for k, v in self.base_store]))
+
     # ---------------------------------------------------------------- all
     def run(self):
         self.base_grid()
+        self.base_other()
         for nd in (2, 3):
             c = self.base.cls(f"BaseGrid{nd}D")
             self.ndim_of(c, nd)
             self.axes(c, nd)
             self.resample(c, nd)
             self.smooth(c, nd)
+            self.point_call(self.base, c, nd, "call", f"interp{nd}d", ())
+            members = sorted(n.name for n in c.body if isinstance(n, ast.FunctionDef))
+            if members != sorted(["__call__", "resample", "smooth"] + ["zaxis", "xaxis", "yaxis"][:nd]):
+                self.base.err(c, f"{c.name}: unexpected set of members {members}")
         for nd in (2, 3):
             self.raytrace(nd)
+            c = self.grid.cls(f"TraveltimeGrid{nd}D")
+            self.point_call(self.grid, c, nd, "ttcall", f"vinterp{nd}d", ("_source", "_vzero"))
+            self.tt_init(nd)
+            members = sorted(n.name for n in c.body if isinstance(n, ast.FunctionDef))
+            if members != sorted(["__init__", "__call__", "raytrace", "gradient"]):
+                self.grid.err(c, f"{c.name}: unexpected set of members {members}")
         for nd in (2, 3):
             self.solve(nd)
+            self.eikonal_init(nd)
+            c = self.solver.cls(f"Eikonal{nd}D")
+            members = sorted(n.name for n in c.body if isinstance(n, ast.FunctionDef))
+            if members != ["__init__", "solve"]:
+                self.solver.err(c, f"{c.name}: unexpected set of members {members}")
         # data names may repeat (ray2d_params ...) only with identical text
         seen = {}
         out = []
@@ -988,6 +1273,8 @@ Definition np_min (l : list T) : T := match l with [] => nnan | x :: t => fold_l
 (* truth value of a `float or None` argument, and its value where it is known not to be None *)
 Definition optT_truthy (x : option T) : bool := match x with Some s => ntruthy s | None => false end.
 Definition optT_val (x : option T) : T := match x with Some s => s | None => nofZ 0 end.
+(* np.zeros(n, dtype=np.float64) *)
+Definition np_zeros (n : Z) : list T := np_full n (nofZ 0).
 
 """
 
